@@ -1099,18 +1099,27 @@ func translate(repo string, t *target) (def string, err error) {
 
 func main() {
 	repo := flag.String("repo", "/repo", "repository root")
-	tf := flag.String("targets", "", "targets JSON (list of units)")
+	tf := flag.String("targets", "", "targets JSON file (list of units) or a directory of such files")
 	outdir := flag.String("outdir", "", "directory for generated .v files")
 	flag.Parse()
-	raw, err := os.ReadFile(*tf)
-	if err != nil {
-		fmt.Fprintln(os.Stderr, err)
-		os.Exit(2)
-	}
 	var units []unit
-	if err := json.Unmarshal(raw, &units); err != nil {
-		fmt.Fprintln(os.Stderr, "targets:", err)
-		os.Exit(2)
+	tfiles := []string{*tf}
+	if st, err := os.Stat(*tf); err == nil && st.IsDir() {
+		tfiles, _ = filepath.Glob(filepath.Join(*tf, "*.json"))
+		sort.Strings(tfiles)
+	}
+	for _, f := range tfiles {
+		raw, err := os.ReadFile(f)
+		if err != nil {
+			fmt.Fprintln(os.Stderr, err)
+			os.Exit(2)
+		}
+		var us []unit
+		if err := json.Unmarshal(raw, &us); err != nil {
+			fmt.Fprintln(os.Stderr, "targets:", f, err)
+			os.Exit(2)
+		}
+		units = append(units, us...)
 	}
 	status := 0
 	for _, u := range units {
